@@ -15,6 +15,15 @@
 //! and cancellation deadlines (the future is dropped wherever it happens to be: queued, mid-acquisition
 //! or holding); oracle: never two holders, every non-cancelled request is granted, everything
 //! completes before a 30 s watchdog.
+//!
+//! Family `agent` (oracle only): a REAL agent (`start_with_config`) whose buffered-apply queue is tiny
+//! (`perf.apply_channel_len = cap`).  A foreign actor's k multi-change versions (made by a plain
+//! cr-sqlite database) are delivered through the real `process_multiple_changes`: first all first
+//! halves (everything is buffered), then all second halves in ONE batch, so that the batch completes
+//! k buffered versions while it owns the write connection, with `local` concurrent client writes
+//! (`api_v1_transactions`).  Oracle: the batch, the local writes and the background apply of all k
+//! versions complete before a watchdog (the pool's own timeout is 5 minutes, so a wedge between the
+//! write connection and the apply queue is unmistakable).
 use std::collections::BTreeMap;
 use std::future::Future;
 use std::pin::Pin;
@@ -529,6 +538,183 @@ fn split_list_sep(s: &str, sep: char) -> Vec<&str> {
     if s == "-" || s.is_empty() { vec![] } else { s.split(sep).collect() }
 }
 
+// ------------------------------------------------------------------ agent family
+
+const AGENT_SCHEMA: &str = "CREATE TABLE t (id INTEGER NOT NULL PRIMARY KEY, a TEXT NOT NULL DEFAULT '', b INTEGER NOT NULL DEFAULT 0);";
+const WEDGE: Duration = Duration::from_secs(12);
+
+/// k transactions of 2 inserted rows (= 4 changes, seq 0..=3) on a plain cr-sqlite database
+fn foreign_versions(dir: &std::path::Path, k: u64) -> Result<(klukai_types::actor::ActorId, Vec<Vec<klukai_types::change::Change>>), String> {
+    use klukai_types::api::{ColumnName, SqliteValue, TableName};
+    use klukai_types::base::{CrsqlDbVersion, CrsqlSeq};
+    let e = |e: rusqlite::Error| e.to_string();
+    let mut conn = klukai_types::sqlite::CrConn::init(rusqlite::Connection::open(dir.join("origin.db")).map_err(e)?).map_err(e)?;
+    conn.execute_batch(AGENT_SCHEMA).map_err(e)?;
+    conn.query_row("SELECT crsql_as_crr('t')", [], |_| Ok(())).map_err(e)?;
+    let site: Vec<u8> = conn.query_row("SELECT crsql_site_id()", [], |r| r.get(0)).map_err(e)?;
+    let site16: [u8; 16] = site.clone().try_into().map_err(|_| "site id".to_string())?;
+    let mut out = vec![];
+    for v in 1..=k {
+        let tx = conn.transaction().map_err(e)?;
+        tx.execute("INSERT INTO t (id, a, b) VALUES (?, ?, ?)", rusqlite::params![1000 + 2 * v as i64, format!("o{v}"), v as i64]).map_err(e)?;
+        tx.execute("INSERT INTO t (id, a, b) VALUES (?, ?, ?)", rusqlite::params![1001 + 2 * v as i64, format!("p{v}"), -(v as i64)]).map_err(e)?;
+        tx.commit().map_err(e)?;
+        let mut st = conn
+            .prepare(r#"SELECT "table", pk, cid, val, col_version, cl, db_version, seq FROM crsql_changes WHERE db_version = ? ORDER BY seq"#)
+            .map_err(e)?;
+        let chs: Vec<klukai_types::change::Change> = st
+            .query_map([v as i64], |r| {
+                Ok(klukai_types::change::Change {
+                    table: TableName(r.get::<_, String>(0)?.as_str().into()),
+                    pk: r.get(1)?,
+                    cid: ColumnName(r.get::<_, String>(2)?.as_str().into()),
+                    val: r.get::<_, SqliteValue>(3)?,
+                    col_version: r.get(4)?,
+                    cl: r.get(5)?,
+                    db_version: CrsqlDbVersion(r.get::<_, i64>(6)? as u64),
+                    seq: CrsqlSeq(r.get::<_, i64>(7)? as u64),
+                    site_id: site16,
+                })
+            })
+            .and_then(|it| it.collect())
+            .map_err(e)?;
+        if chs.len() != 4 || chs.iter().enumerate().any(|(i, c)| c.seq.0 != i as u64) {
+            return Err(format!("origin version {v} has an unexpected change list ({} changes)", chs.len()));
+        }
+        out.push(chs);
+    }
+    Ok((klukai_types::actor::ActorId(uuid::Uuid::from_bytes(site16)), out))
+}
+
+fn run_agent(toks: &[&str]) -> Option<(String, Vec<String>, bool)> {
+    use klukai_types::base::{CrsqlDbVersion, CrsqlSeq};
+    use klukai_types::broadcast::{ChangeSource, ChangeV1, Changeset, Timestamp};
+    let cap: usize = toks.get(1)?.parse().ok()?;
+    let k: u64 = toks.get(2)?.parse().ok()?;
+    let split: u64 = toks.get(3)?.parse().ok()?;
+    let local: usize = toks.get(4)?.parse().ok()?;
+    if cap == 0 || cap > 64 || k == 0 || k > 64 || split == 0 || split > 3 || local > 8 {
+        return None;
+    }
+    let expect = format!("done applied={k} local={local}");
+    let dir = case_dir();
+    let mut fails: Vec<String> = vec![];
+    let out = (|| -> Result<String, String> {
+        let (origin, versions) = foreign_versions(&dir, k)?;
+        std::fs::create_dir_all(dir.join("schema")).map_err(|e| e.to_string())?;
+        std::fs::write(dir.join("schema").join("t.sql"), AGENT_SCHEMA).map_err(|e| e.to_string())?;
+        let mut conf = klukai_types::config::Config::builder()
+            .api_addr("127.0.0.1:0".parse().unwrap())
+            .gossip_addr("127.0.0.1:0".parse().unwrap())
+            .admin_path(dir.join("admin.sock").display().to_string())
+            .db_path(dir.join("agent.db").display().to_string())
+            .add_schema_path(dir.join("schema").display().to_string())
+            .build()
+            .map_err(|e| e.to_string())?;
+        // a perfectly legal setting: the queue feeding the buffered-apply loop is small
+        conf.perf.apply_channel_len = cap;
+        let rt = tokio::runtime::Builder::new_multi_thread().worker_threads(4).enable_all().build().map_err(|e| e.to_string())?;
+        let (tripwire, worker, trip_tx) = klukai_types::tripwire::Tripwire::new_simple();
+        let res = rt.block_on(async {
+            tokio::spawn(worker);
+            let (agent, bookie, _transport, _handles) =
+                klukai_agent::agent::start_with_config(conf, tripwire).await.map_err(|e| format!("agent start: {e:#}"))?;
+            let mk = |v: usize, lo: u64, hi: u64| ChangeV1 {
+                actor_id: origin,
+                changeset: Changeset::Full {
+                    version: CrsqlDbVersion(v as u64 + 1),
+                    changes: versions[v].iter().filter(|c| c.seq.0 >= lo && c.seq.0 <= hi).cloned().collect(),
+                    seqs: CrsqlSeq(lo)..=CrsqlSeq(hi),
+                    last_seq: CrsqlSeq(3),
+                    ts: Timestamp::from(1u64 << 32),
+                },
+            };
+            let batch = |lo: u64, hi: u64| -> Vec<(ChangeV1, ChangeSource, std::time::Instant)> {
+                (0..k as usize).map(|v| (mk(v, lo, hi), ChangeSource::Sync, std::time::Instant::now())).collect()
+            };
+            // 1. first parts: everything is buffered, nothing complete
+            let first = tokio::spawn(klukai_agent::agent::process_multiple_changes(agent.clone(), bookie.clone(), batch(0, split - 1), Duration::from_secs(60)));
+            match tokio::time::timeout(WEDGE, first).await {
+                Err(_) => return Ok::<Option<String>, String>(Some("the batch of first chunks did not finish".into())),
+                Ok(Err(e)) => return Err(format!("first batch panicked: {e}")),
+                Ok(Ok(Err(e))) => return Err(format!("first batch failed: {e}")),
+                Ok(Ok(Ok(()))) => {}
+            }
+            // 2. the rest of every version in ONE batch + concurrent client writes
+            let t0 = std::time::Instant::now();
+            let second = tokio::spawn(klukai_agent::agent::process_multiple_changes(agent.clone(), bookie.clone(), batch(split, 3), Duration::from_secs(60)));
+            let mut locals = vec![];
+            for i in 0..local {
+                let agent = agent.clone();
+                locals.push(tokio::spawn(async move {
+                    let st = vec![klukai_types::api::Statement::Simple(format!("INSERT INTO t (id, a, b) VALUES ({}, 'local', {i})", 10 + i))];
+                    let (status, _) = klukai_agent::api::public::api_v1_transactions(
+                        axum::Extension(agent),
+                        axum::extract::Query(klukai_agent::api::public::TimeoutParams { timeout: None }),
+                        axum::extract::Json(st),
+                    )
+                    .await;
+                    status.is_success()
+                }));
+            }
+            match tokio::time::timeout(WEDGE, second).await {
+                Err(_) => {
+                    return Ok(Some(format!(
+                        "stuck: one remote-apply batch that completes {k} buffered versions (apply queue capacity {cap}) still holds the write connection after {:?}",
+                        t0.elapsed()
+                    )));
+                }
+                Ok(Err(e)) => return Err(format!("second batch panicked: {e}")),
+                Ok(Ok(Err(e))) => return Err(format!("second batch failed: {e}")),
+                Ok(Ok(Ok(()))) => {}
+            }
+            for (i, l) in locals.into_iter().enumerate() {
+                match tokio::time::timeout(WEDGE, l).await {
+                    Err(_) => return Ok(Some(format!("stuck: local write {i} did not complete within {WEDGE:?} after the batch"))),
+                    Ok(Ok(true)) => {}
+                    Ok(other) => return Err(format!("local write {i} failed: {other:?}")),
+                }
+            }
+            // 3. the write connection is obtainable and the background loop applies every version
+            match tokio::time::timeout(WEDGE, agent.pool().write_priority()).await {
+                Ok(Ok(c)) => drop(c),
+                Ok(Err(e)) => return Err(format!("write connection after the batch: {e}")),
+                Err(_) => return Ok(Some("stuck: the write connection cannot be obtained after the batch".into())),
+            }
+            let want = 2 * k as i64 + local as i64;
+            let deadline = std::time::Instant::now() + WEDGE;
+            loop {
+                let n: i64 = {
+                    let conn = agent.pool().read().await.map_err(|e| e.to_string())?;
+                    conn.query_row("SELECT COUNT(*) FROM t", [], |r| r.get(0)).map_err(|e| e.to_string())?
+                };
+                if n == want {
+                    break;
+                }
+                if std::time::Instant::now() > deadline {
+                    return Ok(Some(format!("stuck: buffered versions were not applied: {n}/{want} rows after {WEDGE:?}")));
+                }
+                tokio::time::sleep(Duration::from_millis(20)).await;
+            }
+            Ok(None)
+        });
+        let _ = trip_tx.try_send(());
+        rt.shutdown_timeout(Duration::from_secs(2));
+        match res? {
+            None => Ok(expect.clone()),
+            Some(f) => {
+                fails.push(f);
+                Ok("stuck".into())
+            }
+        }
+    })();
+    let _ = std::fs::remove_dir_all(&dir);
+    match out {
+        Ok(o) => Some((o, fails, true)),
+        Err(e) => Some((format!("err {}", e.chars().take(80).collect::<String>().replace(' ', "_")), vec![format!("agent family could not run: {e}")], false)),
+    }
+}
+
 // ------------------------------------------------------------------ generators
 
 fn prio_tok(rng: &mut Rng) -> &'static str {
@@ -594,6 +780,12 @@ fn gen_sched(rng: &mut Rng, tier: Tier) -> Vec<String> {
     ops
 }
 
+fn gen_agent(rng: &mut Rng) -> Vec<String> {
+    let cap = rng.range(1, 3);
+    let k = cap + rng.range(2, 5);
+    vec![format!("agent {cap} {k} {} {}", rng.range(1, 3), rng.range(0, 2))]
+}
+
 fn gen_stress(rng: &mut Rng, tier: Tier) -> Vec<String> {
     let threads = rng.range(1, 6);
     let n = match tier {
@@ -623,7 +815,9 @@ impl Prop for C20 {
         "one case = one schedule. sched: op lines (req/run/poll/drop/dropheld/ext/state) steering the real SplitPool on a \
          current-thread runtime; non-trivial iff at least two requests were granted, at least one future or connection was \
          dropped by the schedule and some request was polled while another held the connection. stress: one line with \
-         N real concurrent requesters on a multi-thread runtime; non-trivial iff at least two were granted. distinct by hash of the op lines"
+         N real concurrent requesters on a multi-thread runtime; non-trivial iff at least two were granted. agent: one line \
+         `agent <apply_channel_len> <k versions> <first chunk size> <local writes>` run on a real agent; non-trivial iff it ran. \
+         distinct by hash of the op lines"
     }
     fn default_cases(&self, tier: Tier) -> usize {
         match tier {
@@ -634,7 +828,14 @@ impl Prop for C20 {
     fn enumerated_case(&self, _tier: Tier, index: usize) -> Option<Vec<String>> {
         // exhaustive small scope: a holder, three queued requests of every class combination (27),
         // none or one of them cancelled while queued (4); then the holder releases and the queue drains
-        if index >= 27 * 4 {
+        if index == 27 * 4 {
+            // the smallest wedge shape: apply queue of one entry, one batch completing four versions
+            return Some(vec!["agent 1 4 2 1".into()]);
+        }
+        if index == 27 * 4 + 1 {
+            return Some(vec!["agent 2 6 1 2".into()]);
+        }
+        if index > 27 * 4 + 1 {
             return None;
         }
         let classes = ["p", "n", "l"];
@@ -661,47 +862,52 @@ impl Prop for C20 {
     }
     fn gen_case(&self, rng: &mut Rng, tier: Tier, index: usize) -> Vec<String> {
         // about one case in eight is a real-threads stress case
-        if index % 8 == 7 { gen_stress(rng, tier) } else { gen_sched(rng, tier) }
+        if index % 8 == 7 {
+            gen_stress(rng, tier)
+        } else if index % 48 == 3 {
+            gen_agent(rng)
+        } else {
+            gen_sched(rng, tier)
+        }
     }
     fn exec_case(&self, ops: &[String]) -> CaseResult {
-        if ops.len() == 1 && ops[0].starts_with("stress") {
-            let toks: Vec<&str> = ops[0].split_whitespace().collect();
-            let mut r = CaseResult::default();
-            match if toks.len() == 3 { run_stress(&toks) } else { None } {
-                Some((out, fails, nt)) => {
-                    r.outputs.push(out);
-                    r.oracle_failures = fails;
-                    r.nontrivial = nt;
-                    r.tags.push("stress".into());
-                }
-                None => r.outputs.push("bad-op".into()),
+        // `stress` and `agent` lines are cases of their own (own runtime); everything else is one schedule
+        let standalone = |o: &str| o.starts_with("stress") || o.starts_with("agent");
+        let run_alone = |o: &str| -> (String, Vec<String>, bool, &'static str) {
+            let toks: Vec<&str> = o.split_whitespace().collect();
+            let (res, tag) = if toks[0] == "stress" {
+                (if toks.len() == 3 { run_stress(&toks) } else { None }, "stress")
+            } else if toks[0] == "agent" {
+                (if toks.len() == 5 { run_agent(&toks) } else { None }, "agent")
+            } else {
+                (None, "")
+            };
+            match res {
+                Some((out, fails, nt)) => (out, fails, nt, tag),
+                None => ("bad-op".into(), vec![], false, tag),
             }
-            return r;
+        };
+        if !ops.iter().any(|o| standalone(o)) {
+            return run_sched(ops);
         }
-        if ops.iter().any(|o| o.starts_with("stress")) {
-            // mixed case (hand-written or shrunk): stress lines run on their own, the rest as one schedule
-            let sched_ops: Vec<String> = ops.iter().filter(|o| !o.starts_with("stress")).cloned().collect();
-            let mut sched = if sched_ops.is_empty() { CaseResult::default() } else { run_sched(&sched_ops) };
-            let mut it = std::mem::take(&mut sched.outputs).into_iter();
-            let mut r = CaseResult { oracle_failures: sched.oracle_failures, nontrivial: sched.nontrivial, tags: sched.tags, ..Default::default() };
-            for o in ops {
-                if o.starts_with("stress") {
-                    let toks: Vec<&str> = o.split_whitespace().collect();
-                    match if toks.len() == 3 { run_stress(&toks) } else { None } {
-                        Some((out, fails, nt)) => {
-                            r.outputs.push(out);
-                            r.oracle_failures.extend(fails);
-                            r.nontrivial |= nt;
-                        }
-                        None => r.outputs.push("bad-op".into()),
-                    }
-                } else {
-                    r.outputs.push(it.next().unwrap_or_else(|| "impl-missing-output".into()));
+        let sched_ops: Vec<String> = ops.iter().filter(|o| !standalone(o)).cloned().collect();
+        let mut sched = if sched_ops.is_empty() { CaseResult::default() } else { run_sched(&sched_ops) };
+        let mut it = std::mem::take(&mut sched.outputs).into_iter();
+        let mut r = CaseResult { oracle_failures: sched.oracle_failures, nontrivial: sched.nontrivial, tags: sched.tags, ..Default::default() };
+        for o in ops {
+            if standalone(o) {
+                let (out, fails, nt, tag) = run_alone(o);
+                r.outputs.push(out);
+                r.oracle_failures.extend(fails);
+                r.nontrivial |= nt;
+                if !tag.is_empty() {
+                    r.tags.push(tag.into());
                 }
+            } else {
+                r.outputs.push(it.next().unwrap_or_else(|| "impl-missing-output".into()));
             }
-            return r;
         }
-        run_sched(ops)
+        r
     }
     fn begin(&self) {
         let _ = std::fs::create_dir_all(format!("{TMP_ROOT}/c20-{}", std::process::id()));
